@@ -21,9 +21,13 @@ DEFS_A = [dict(groups=0, names=[None]), dict(groups=1, names=[None, 'n']), dict(
 DEFS_B = [dict(groups=0, names=[None]), dict(groups=1, names=[None, 'n']), dict(groups=0, names=[None])]
 # hand-registered definitions (no Location) with three different regex texts: nothing but the regex text orders them
 DEFS_C = [dict(groups=0, names=[None], noloc=True), dict(groups=1, names=[None, 'n'], noloc=True), dict(groups=0, names=[None], noloc=True)]
+# the SAME (keyword, regex, location) triple registered twice (definitions 0 and 2: no Location, texts may be identical): a
+# collection is a set of definitions - when the texts are identical there is ONE definition, not an ambiguity
+DEFS_D = [dict(groups=0, names=[None], noloc=True, same_def=True), dict(groups=1, names=[None, 'n']), dict(groups=0, names=[None], noloc=True, same_def=True)]
 DEFS = DEFS_A
 
 
+@common.part
 def obligations(chk, prop='C17'):
     prog = chk.prog
     t = prog.tables
@@ -60,10 +64,12 @@ def obligations(chk, prop='C17'):
     clone_body = cb[0] if len(cb) == 1 else None
     global DEFS
     runs = [(l, DEFS_A) for l in layouts] + [(l, DEFS_B) for l in (('given', 'when', 'given'), ('given', 'given', 'given'), ('then', 'when', 'then'))]
+    runs += [(l, DEFS_D) for l in (('given', 'when', 'given'), ('then', 'then', 'then'))]
     runs += [(l, DEFS_C) for l in (('given', 'given', 'when'), ('then', 'when', 'then'))]       # two candidates at most: the anchors and the comparison of stripped texts are free per pair
     cmp_body = common.find_method(prog, 'HashableRegex', 'cmp', 'Ord')
+    new_body = common.find_method(prog, 'Collection', 'new')
     for layout, DEFS in runs:
-        same_text = z3.Bool('same-regex-text(0,2)') if DEFS is DEFS_B else z3.BoolVal(False)
+        same_text = z3.Bool('same-regex-text(0,2)') if DEFS in (DEFS_B, DEFS_D) else z3.BoolVal(False)
         ex, M = chk.new_exec(loop_bound=16, max_paths=6000)
         matched = [z3.Bool('matched%d' % i) for i in range(3)]
         part = {(i, g): z3.Bool('participates(%d,%d)' % (i, g)) for i in range(3) for g in range(1, DEFS[i]['groups'] + 1)}
@@ -246,7 +252,8 @@ def obligations(chk, prop='C17'):
             ex_.add(z3.Implies(same_text, matched[0] == matched[2]))
             # the Collection is built through the real registration methods, in definition order (the maps iterate in
             # every order anyway): whatever key the maps use is the code's own
-            coll = Adt('step::Collection<W>', {(None, CF.index(k)): M.new_assoc('?', '?', []) for k in ('given', 'when', 'then')})
+            # the empty collection is the code's own (`Collection::new()`): whatever containers it uses
+            coll = ex_.materialize(ex_.call_body(new_body, []))
             for i, k in enumerate(layout):
                 loc = Adt('Option<step::Location>', {(1, 0): Obj('loc', d=i)}, 0 if DEFS[i].get('noloc') else 1)
                 coll = ex_.call_body(reg_body[k], [coll, loc, Obj('regex', d=i), Obj('stepfn', d=i)])
@@ -258,7 +265,7 @@ def obligations(chk, prop='C17'):
             return {'out': ex_.materialize(out), 'tried': [e['d'] for e in ex_.env.get('log', []) if e['kind'] == 'regex_tried'],
                     'ties': [(e['a'], e['b']) for e in ex_.env.get('log', []) if e['kind'] == 'sort_tie']}
 
-        def on_end(ex_, rec, layout=layout, M=M, DEFS=DEFS):
+        def on_end(ex_, rec, layout=layout, M=M, DEFS=DEFS, same_text=same_text):
             kind, res, pc, dec = rec
             npaths[0] += 1
             if kind != 'ok':
@@ -291,8 +298,14 @@ def obligations(chk, prop='C17'):
                     return
                 if t_:
                     cands.append(i)
+            # definitions 0 and 2 registered as the very same triple: one definition
+            one_def = bool(DEFS[0].get('same_def')) and 0 in cands and 2 in cands and not ex_.check(z3.Not(same_text))
+            alts = cands[:1]
+            if one_def:
+                cands = [c_ for c_ in cands if c_ != 0]
+                alts = [0, 2] if cands == [2] else [cands[0]]
             d = z3.simplify(M.discr(ex_, out)).as_long()
-            model = {'layout': list(layout), 'keyword': kwname, 'matching_definitions': cands}
+            model = {'layout': list(layout), 'keyword': kwname, 'matching_definitions': cands, 'same_triple_registered_twice': one_def}
             if len(cands) == 0:
                 o3 = ob('no-match=>not-found')
                 o3.paths += 1
@@ -308,7 +321,10 @@ def obligations(chk, prop='C17'):
                     err = ex_.materialize(ex_.field_of(out, 1, 0, 'AmbiguousMatchError'))
                     pm = ex_.materialize(ex_.field_of(err, None, 0, 'Vec'))
                     listed = [def_of(ex_, ex_.field_of(ex_.materialize(x), None, 0, 'HashableRegex')) for x in pm.items]
-                    okk = listed == sorted(cands)
+                    if one_def:
+                        listed = [2 if x_ == 0 else x_ for x_ in listed]       # the one definition, under either of its registrations
+                    # (when definition 2 is definition 0 registered again its text is r0: it sorts before r1)
+                    okk = listed == sorted(cands, key=lambda x_: 0 if (one_def and x_ == 2) else x_)
                 if not okk:
                     o4.verdict, o4.detail = 'violated', 'definitions %s match, the error lists %s' % (cands, listed)
                     o4.model = dict(model, listed=listed)
@@ -338,14 +354,18 @@ def obligations(chk, prop='C17'):
                             nmo = ex_.field_of(nm, 1, 0, 'String')
                             nmv = nmo.text.strip('"') if isinstance(nmo, Obj) and nmo.kind == 'str' else repr(nmo)
                         got.append((nmv, val.name if isinstance(val, Obj) and val.kind == 'symstr' else (val.text if isinstance(val, Obj) else repr(val))))
-                    want = [(DEFS[i]['names'][0], 'whole(%d)' % i)]
                     undecided = False
-                    for g in range(1, DEFS[i]['groups'] + 1):
-                        p_t, p_f = ex_.check(part[(i, g)]), ex_.check(z3.Not(part[(i, g)]))
-                        if p_t and p_f:
-                            undecided = True
-                        want.append((DEFS[i]['names'][g], 'group(%d,%d)' % (i, g) if p_t else '""'))
-                    okk = (isinstance(fn, Obj) and fn.d.get('d') == i) and got == want and not undecided
+                    wants = []
+                    for j in alts:
+                        want = [(DEFS[j]['names'][0], 'whole(%d)' % j)]
+                        for g in range(1, DEFS[j]['groups'] + 1):
+                            p_t, p_f = ex_.check(part[(j, g)]), ex_.check(z3.Not(part[(j, g)]))
+                            if p_t and p_f:
+                                undecided = True
+                            want.append((DEFS[j]['names'][g], 'group(%d,%d)' % (j, g) if p_t else '""'))
+                        wants.append(want)
+                    want = wants[0]
+                    okk = (isinstance(fn, Obj) and fn.d.get('d') in alts) and got in wants and not undecided
                     why = 'chosen fn %r, matches %s, expected %s' % (fn, got, want)
                     same_step = ex_.field_of(ctx, None, CX.index('step'), 'gherkin::Step')
                 if not okk:
@@ -403,6 +423,13 @@ def confirm(chk, bad):
             n += 1
             if m_.group(2) != '1':
                 devs.append('the same two ambiguous definitions are listed in %s different orders over 64 fresh collections: %s' % (m_.group(2), m_.group(3).replace('_', ' ')))
+    # the same (keyword, regex, location) registered twice is one definition: a step only it matches is not ambiguous
+    for ln in out.splitlines():
+        m_ = re.match(r'DUPCASE (\S+) result=(\S+)', ln)
+        if m_:
+            n += 1
+            if not m_.group(2).startswith('one:'):
+                devs.append('the same (keyword, regex, location) registered twice (%s) and matched by nothing else: %s (one definition expected)' % (m_.group(1), m_.group(2)))
     for o in bad:
         if res is None or n == 0:
             o.verdict = 'inconclusive'
